@@ -236,7 +236,19 @@ def translate_schema():
         "TopSec %s %s %s" % (nlist(t["name"]), ckind(t["kind"]), vlib.cbool(t["required"])) for t in tops)
     text += "Definition schema_routing_sid : N := %d.\nDefinition schema_global_sid : N := %d.\n" % (STRUCT_NAMES.index("Routing"), STRUCT_NAMES.index("Global"))
     text += "Definition schema_global_name : list N := %s.\n" % nlist("global")
-    return text, {"structs": structs, "tops": tops}
+    # shape tie: ParamParser has no success exit before its "Check required" loop
+    psrc = open(os.path.join(vlib.REPO, "config/parser.go")).read()
+    mm = re.search(r"^func ParamParser\(.*?^\}", psrc, re.S | re.M)
+    shape_issue = None
+    if not mm or "// Check required." not in mm.group(0):
+        shape_issue = "ParamParser or its 'Check required' loop not found in config/parser.go"
+    else:
+        body = mm.group(0)
+        before = body[:body.index("// Check required.")]
+        early = len(re.findall(r"^\s*return nil\s*$", before, re.M))
+        if early:
+            shape_issue = "ParamParser has %d success return(s) before its 'Check required' loop; the model has none" % early
+    return text, {"structs": structs, "tops": tops, "shape_issue": shape_issue}
 
 
 LEXER_SHAPE_SHA = "0f7da07ac2435828817fbca435ae8119c05e60db8470bd49cf805c1e9ac25c28"
@@ -1169,6 +1181,74 @@ def gen_build_text(rng, sch):
     return "\n".join(parts) + "\n", tag
 
 
+def simple_item(f):
+    k = f["kind"]
+    if k[0] == "KString":
+        return "%s: v" % f["key"]
+    if k[0] == "KScalar":
+        return "%s: %s" % (f["key"], {"bool": "true", "uint16": "1", "uint32": "1", "int": "1", "time.Duration": "30s", "uint8": "1"}[k[2]])
+    if k[0] == "KList":
+        return "%s: a" % f["key"]
+    if k[0] == "KIface":
+        return "%s: x" % f["key"]
+    if k[0] == "KFuncLists":
+        return "%s: name(a)" % f["key"]
+    return None
+
+
+def struct_paths(sch):
+    """for every struct reachable from a top-level section: the chain of (opening text, struct name) that nests it"""
+    out = []
+
+    def walk(chain, kind, depth):
+        if depth > 5:
+            return
+        if kind[0] == "KStruct":
+            sname = STRUCT_NAMES[kind[1]]
+            out.append((list(chain), sname))
+            for f in sch["structs"][sname]["fields"]:
+                if f["kind"][0] in ("KStruct", "KStructList"):
+                    walk(chain + [(f["key"], sname)], f["kind"], depth + 1)
+        elif kind[0] == "KStructList":
+            walk(chain + [("member1", None)], ("KStruct", kind[1]), depth + 1)
+    for t in sch["tops"]:
+        walk([(t["name"], None)], t["kind"], 0)
+    return out
+
+
+def required_family(sch):
+    """every struct section that has required keys, nested in each allowed parent, written empty, with only
+    comments/whitespace, with only unrelated optional keys, and (control) with its required keys.
+    -> list of (text, tag, expected missing keys or None)"""
+    cases = []
+    for chain, sname in struct_paths(sch):
+        st = sch["structs"][sname]
+        req = [f for f in st["fields"] if f["required"]]
+        if not req:
+            continue
+        opt = [x for x in (simple_item(f) for f in st["fields"] if not f["required"]) if x][:3]
+        if st["has_rules"]:
+            opt.append("qname(x) -> y")
+        good = " ".join(x for x in (simple_item(f) for f in req) if x)
+        bodies = [("empty", "", True), ("comments", " # nothing here\n /* nor here */ \n\t", True),
+                  ("optional-only", " ".join(opt), True), ("control", good, False)]
+        for bname, body, missing in bodies:
+            # the enclosing sections carry their own required keys (so that only the target lacks one)
+            text = body
+            for i in range(len(chain) - 1, -1, -1):
+                name, parent_struct = chain[i]
+                extra = ""
+                if parent_struct is not None:
+                    pst = sch["structs"][parent_struct]
+                    extra = " ".join(x for x in (simple_item(f) for f in pst["fields"] if f["required"] and f["key"] != name) if x)
+                text = "%s { %s } %s" % (name, text, extra)
+            top = chain[0][0]
+            base = " ".join("%s { }" % t["name"] for t in sch["tops"] if t["required"] and t["name"] != top)
+            cases.append((base + " " + text + "\n", "required:%s:%s:%s" % ("/".join(c[0] for c in chain), sname, bname),
+                          [f["key"] for f in req] if missing else None))
+    return cases
+
+
 def run_build_stream(sc, binary, rng, sch, n, out, stats):
     """returns (list of model-fail texts, error)"""
     test = "TestVerifC17Build"
@@ -1184,7 +1264,10 @@ def run_build_stream(sc, binary, rng, sch, n, out, stats):
         return None, err
     oracle = clist(["(%d, %s, %s)" % (ORACLE_TYPES[ty], bstr(v), vlib.cbool(r.get("ok", False))) for (ty, v), r in zip(okeys, ores)])
     cases = [gen_build_text(rng, sch) for _ in range(n)]
-    cases = [(t, "fixed:" + name) for name, t, _ in BUILD_TEXTS] + cases
+    fam = required_family(sch)
+    fam_expect = {tag: keys for _, tag, keys in fam}
+    stats["required_key_family_cases"] = len(fam)
+    cases = [(t, "fixed:" + name) for name, t, _ in BUILD_TEXTS] + [(t, tag) for t, tag, _ in fam] + cases
     res, err = run_requests(sc, binary, [{"op": "build2", "text": b64(t)} for t, _ in cases], "build2", test=test)
     if err:
         return None, err
@@ -1197,7 +1280,20 @@ def run_build_stream(sc, binary, rng, sch, n, out, stats):
         p, b = r["parse"], r["build"]
         if not p.get("ok"):
             kinds["unparsable"] = kinds.get("unparsable", 0) + 1
+            if tag.startswith("required:"):
+                return None, "generated required-key case does not parse: " + text
             continue
+        if tag in fam_expect:
+            keys = fam_expect[tag]
+            err_txt = b.get("err", "")
+            if keys is not None and not stats.get("_req_reported") and (b.get("ok") or "but not found" not in err_txt or not any('"%s"' % k in err_txt for k in keys)):
+                out.violation("build_required", {"op": "build", "text": text, "result": b, "expected": "an error naming one of the missing required keys %s" % keys,
+                                                 "how": "Parse then config.New: a section that lacks a required key (here: %s) must be rejected" % tag},
+                              "config.New accepts (or mis-reports) a section that lacks a required key: %s" % tag, matchers=["C17/build-required/" + tag.split(":")[2] + "/" + tag.split(":")[3]])
+                stats["_req_reported"] = True
+            elif keys is None and not b.get("ok"):
+                out.violation("build_required_control", {"op": "build", "text": text, "result": b},
+                              "config.New rejects a section that has its required keys: %s" % tag, matchers=["C17/build-required-control"])
         if b.get("panic"):
             code = 100
         elif b.get("ok"):
@@ -1228,6 +1324,7 @@ def run_build_stream(sc, binary, rng, sch, n, out, stats):
     bsigs = re.findall(r"\((\d+),(\d+),(\d+)\)", re.sub(r"\s+|%N", "", m2.group(1))) if m2 else []
     stats["build_stream_answer_kinds"] = {str(k): v for k, v in sorted(kinds.items(), key=lambda kv: str(kv[0]))}
     stats["build_stream_cases"] = len(terms)
+    stats.pop("_req_reported", None)
     model_fail = []
     for i, e in zip(idx, per):
         text, tag = cases[i]
@@ -1457,6 +1554,8 @@ def main(argv):
                           % (facts["lexer_shape_sha256"][:12], facts["parser_atn_sha256"][:12]))
         schema_text, schema = translate_schema()
         vlib.write_if_changed(os.path.join(vlib.COQ, "gen", "Extracted_C17_Schema.v"), schema_text)
+        if schema.get("shape_issue"):
+            tie_broken = tie_broken or ("shape of config/parser.go: " + schema["shape_issue"])
     except AnchorMoved as e:
         tie_broken = "anchor moved: %s" % e
     limit = facts.get("max_match_set_len", 1024)
